@@ -1041,8 +1041,10 @@ pub struct ElemView<'x> {
     pub vfields: Option<&'x FieldsDoc>,
 }
 
+/// The path of a foreign attribute's text: `keep(1 2)` -> `keep`, `a::b(c = 1)` -> `a::b` (which is
+/// neither `a` nor `b` to darling: names are compared as whole paths).
 fn leading_ident(text: &str) -> &str {
-    let end = text.find(|c: char| !(c.is_ascii_alphanumeric() || c == '_')).unwrap_or(text.len());
+    let end = text.find(|c: char| !(c.is_ascii_alphanumeric() || c == '_' || c == ':')).unwrap_or(text.len());
     &text[..end]
 }
 
